@@ -30,6 +30,18 @@ def concatenate_arrays(*arrays):
     return buffer_as_struct.view('S{0}'.format(total_size))
 
 
+def common_key_arrays(key_left, key_right):
+    """
+    Cast a pair of key arrays to their common dtype (e.g. int32 and int64 to
+    int64, '<U3' and '<U6' to '<U6'), so that keys that are equal by value
+    also have the same bytes in :func:`concatenate_arrays`.
+    """
+    key_left = np.asarray(key_left)
+    key_right = np.asarray(key_right)
+    dtype = np.result_type(key_left.dtype, key_right.dtype)
+    return key_left.astype(dtype, copy=False), key_right.astype(dtype, copy=False)
+
+
 def get_mask_with_key_joins(data, key_joins, subset_state, view=None):
     """
     Given a dataset and a subset state, check whether the subset state
@@ -66,8 +78,11 @@ def get_mask_with_key_joins(data, key_joins, subset_state, view=None):
             key_right_all = []
 
             for cid1_i, cid2_i in zip(cid1, cid2):
-                key_left_all.append(data.get_data(cid1_i, view=view).ravel())
-                key_right_all.append(other.get_data(cid2_i, view=mask_right).ravel())
+                key_left = data.get_data(cid1_i, view=view).ravel()
+                key_right = other.get_data(cid2_i, view=mask_right).ravel()
+                key_left, key_right = common_key_arrays(key_left, key_right)
+                key_left_all.append(key_left)
+                key_right_all.append(key_right)
 
             key_left_all = concatenate_arrays(*key_left_all)
             key_right_all = concatenate_arrays(*key_right_all)
